@@ -375,6 +375,41 @@ func runC02(c *h.Ctx) {
 		}
 	}
 	c.Sample("codepoint", map[string]string{"path": `$."a\u0007b"`})
+	// (b2) long flat chains: the source needs no parentheses, the canonical
+	// text nests one pair per operator - and must still be read back
+	for li, n := range []int{60, 130, 200, 300, 600} {
+		if !c.Mine(li) {
+			continue
+		}
+		var or, and, sum, mul, mix, steps, filt []string
+		for i := 0; i < n; i++ {
+			or = append(or, fmt.Sprintf("@.id == %d", i))
+			and = append(and, fmt.Sprintf("@.k%d > %d", i%7, i))
+			sum = append(sum, fmt.Sprint(i%9+1))
+			mul = append(mul, "$.n")
+			mix = append(mix, []string{"1", "$.a", "2.5", "(3)"}[i%4])
+			steps = append(steps, []string{".a", "[0]", ".*", "[*]", ".b.c", " ? (@ > 1)"}[i%6])
+			filt = append(filt, fmt.Sprintf("? (@ != %d)", i))
+		}
+		try("$[*] ? (" + strings.Join(or, " || ") + ")")
+		try("$[*] ? (" + strings.Join(and, " && ") + ")")
+		try(strings.Join(or, " || ")[0:0] + "$.n + " + strings.Join(sum, " + "))
+		try("strict " + strings.Join(mul, " * ") + " > 0")
+		try(strings.Join(mix, " - "))
+		try(strings.Join(mix, " / ") + " == 1")
+		try("$" + strings.Join(steps, ""))
+		try("$.a " + strings.Join(filt, " "))
+		try("$[" + strings.Join(sum, ", ") + "]")
+		try(strings.Repeat("-", n/10) + "1")
+		try(strings.Repeat("!(", n/4) + "$.a == 1" + strings.Repeat(")", n/4))
+		try(strings.Repeat("(", n/2) + "$.a" + strings.Repeat(")", n/2) + ".b")
+	}
+	// (b3) the template of .datetime() is a string like any other
+	for i, cp := range cps {
+		if i%4 == 0 && c.Mine(i/4) && utf8.ValidString(string(cp)) {
+			try("$.datetime(" + quoteForPath("HH24"+string(cp)+"MI") + ")")
+		}
+	}
 	// (c) numeric literals
 	for i, nt := range append(append([]string{}, c13Grid...), "4.0", "-.0", ".0", "0.", "1e0", "1E5", "1e+5", "12345678901234567890.0", "0.000001", "0.0000001", "1e21", "1e20", "123456789012345678", "0x10", "0b101", "0o17", "1_000", "1_0.5_0", "-0x10", "00.5") {
 		if !c.Mine(i) {
